@@ -160,6 +160,10 @@ async def scenario(scn: dict, obs: dict, tmp: Path) -> None:
             obs['raised_args'] = [x.code]
         obs['has_returned'] = exited.returned is not None
         obs['raised_type'] = type(exited.raised).__name__ if exited.raised is not None else None
+        obs['raised_qual'] = (type(exited.raised).__module__ + '.' + type(exited.raised).__qualname__) if exited.raised is not None else None
+        obs['raised_mro'] = [c.__module__ + '.' + c.__qualname__ for c in type(exited.raised).__mro__] if exited.raised is not None else None
+        c = getattr(exited.raised, '__cause__', None)
+        obs['raised_cause'] = (type(c).__module__ + '.' + type(c).__qualname__) if c is not None else None
         obs['raised'] = repr(exited.raised)[:200] if exited.raised is not None else None
         obs['same_process'] = exited.process is proc
         ca, ea = exited.process_created_at, exited.process_exited_at
@@ -245,12 +249,27 @@ def run_one(scn: dict) -> dict:
             except Exception:
                 time.sleep(0.01)
         o['pending_at_hang'] = pend
+        # where is the `_run` task suspended?  (source line of its coroutine frame)
+        run_line = None
+        try:
+            import linecache
+            for t in asyncio.all_tasks(CURRENT['loop']):
+                c = t.get_coro()
+                if c is not None and c.__qualname__.endswith('._run') and not t.done():
+                    fr = t.get_stack(limit=1)
+                    if fr:
+                        run_line = linecache.getline(fr[0].f_code.co_filename, fr[0].f_lineno).strip()
+        except Exception:
+            pass
+        o['run_task_line'] = run_line
         main = ' '.join(st.get('MainThread', []))
         allst = ' '.join(' '.join(v) for v in st.values())
         if 'pid' not in o:
             o['hang_stage'] = 'start'
         elif ':shutdown' in main and 'run.py' in main:
             o['hang_stage'] = 'executor-shutdown-blocks-loop'
+        elif run_line is not None and 'await future' in run_line:
+            o['hang_stage'] = 'future-never-completes'
         elif pend is not None and any(n.endswith('._listen') for n in pend) and 'selectors.py' in main:
             o['hang_stage'] = 'log-listener-never-ends'
         else:
